@@ -40,13 +40,21 @@ Definition nnn_eqb (a b : N * N * N) := nn_eqb (fst a) (fst b) && (snd a =? snd 
 Definition bn_eqb (a b : bytes * N) := bytes_eqb (fst a) (fst b) && (snd a =? snd b).
 Definition asg_eqb := list_eqb (list_eqb N.eqb).
 
+(* The property constrains WHICH recorded checkpoints a new operator is handed, not the order in which they are listed
+   (rescale_exact_clean holds for the handles in any order): assignments are compared as sorted lists, and the model's
+   restore takes the handles in the OBSERVED order. *)
+Fixpoint ins_N (x : N) (l : list N) : list N :=
+  match l with [] => [x] | y :: l' => if x <=? y then x :: l else y :: ins_N x l' end.
+Definition sort_N (l : list N) : list N := fold_right ins_N [] l.
+Definition asg_same (a b : list (list N)) : bool := asg_eqb (map sort_N a) (map sort_N b).
+
 (* ---------- specification of the assignment, written without the model ---------- *)
 Fixpoint nseq (start : N) (len : nat) : list N :=
   match len with O => [] | S l => start :: nseq (start + 1) l end.
 Definition dfl : kgrange := (0, 0).
 Definition exact_overlaps (to from : list kgrange) (res : list (list N)) : bool :=
   (length res =? length to)%nat &&
-  forallb (fun i => list_eqb N.eqb (nth i res [])
+  forallb (fun i => list_eqb N.eqb (sort_N (nth i res []))
                       (filter (fun j => overlaps (nth i to dfl) (nth (N.to_nat j) from dfl)) (nseq 0 (length from))))
           (seq 0 (length to)).
 (* every key group's old owner is handed to every new range including it: whenever to[i] and from[j] have a key
@@ -67,7 +75,7 @@ Definition nothing_foreign (to from : list kgrange) (res : list (list N)) : bool
     (seq 0 (length to)).
 
 Definition check_assign (count : option N) (to from : list kgrange) (res : list (list N)) (mcode : N) : list N :=
-  (if asg_eqb res (assign_ranges to from) then [] else [mcode]) ++
+  (if asg_same res (assign_ranges to from) then [] else [mcode]) ++
   (if exact_overlaps to from res then [] else [110]) ++
   (match count with
    | Some c => if owner_handed c to from res then [] else [111]
@@ -111,9 +119,16 @@ Fixpoint tm_add (t : N * N) (l : list (N * N)) : list (N * N) :=
 Record rstate := mkR { r_st : list (skey * N); r_tm : list (N * N); r_wm : N; r_n : N; r_class : bool;
                        r_sv : list (skey * N) * list (N * N) }.
 
-Definition model_rescale (count : N) (n : N) (recorded : list (kgrange * ckdoc)) (probes : list (list probe)) : list N :=
+(* what new operator i restores when it is handed the recorded checkpoints at positions idxs, in that order *)
+Definition restore_handed (count n : N) (recorded : list (kgrange * ckdoc)) (i : nat) (idxs : list N) : option dbstate :=
+  match pick recorded idxs with
+  | None => None
+  | Some hs => restore true (nth i (kg_ranges count n) (0, 0)) (map snd hs)
+  end.
+
+Definition model_rescale (count : N) (n : N) (recorded : list (kgrange * ckdoc)) (asg : list (list N)) (probes : list (list probe)) : list N :=
   flat_map (fun i =>
-     match restore_new true count n recorded i with
+     match restore_handed count n recorded i (nth i asg []) with
      | None => [23]
      | Some st =>
          flat_map (fun p => match p with Probe pre obs =>
@@ -124,9 +139,9 @@ Definition model_rescale (count : N) (n : N) (recorded : list (kgrange * ckdoc))
                   (nth i probes [])
      end) (seq 0 (N.to_nat n)).
 
-Definition class_at (count n : N) (recorded : list (kgrange * ckdoc)) : bool :=
+Definition class_at (count n : N) (recorded : list (kgrange * ckdoc)) (asg : list (list N)) : bool :=
   existsb (fun i =>
-     match pick recorded (nth i (assign_ranges (kg_ranges count n) (map fst recorded)) []) with
+     match pick recorded (nth i asg []) with
      | Some (d :: rest) => match merge_into (snd d) (map snd rest) with
                            | Some c => overlapping_level (d_levels c)
                            | None => false end
@@ -154,20 +169,20 @@ Definition step (count : N) (rs : rstate * list N) (o : sop) : rstate * list N :
       let to := kg_ranges count n in
       let from := map fst recorded in
       let e1 := check_assign (Some count) to from asg 21 in
-      let here := layout_ok && class_at count n recorded in
+      let here := layout_ok && class_at count n recorded asg in
       (* inside the class the reads of a composite depend on whether a compaction has already rewritten the
          overlapping level (the model abstracts flush / compaction away, which is only sound for well-formed levels) *)
-      let e2 := if layout_ok && negb here then model_rescale count n recorded probes else [] in
+      let e2 := if layout_ok && negb here then model_rescale count n recorded asg probes else [] in
       let cls := r_class r || here in
       (mkR (r_st r) (r_tm r) 0 n cls (r_st r, r_tm r), errs ++ e1 ++ e2)
   | SRedeploy n recorded asg layout_ok probes =>
       let to := kg_ranges count n in
       let from := map fst recorded in
       let e1 := check_assign (Some count) to from asg 21 in
-      let here := layout_ok && class_at count n recorded in
+      let here := layout_ok && class_at count n recorded asg in
       (* inside the class the reads of a composite depend on whether a compaction has already rewritten the
          overlapping level (the model abstracts flush / compaction away, which is only sound for well-formed levels) *)
-      let e2 := if layout_ok && negb here then model_rescale count n recorded probes else [] in
+      let e2 := if layout_ok && negb here then model_rescale count n recorded asg probes else [] in
       let cls := r_class r || here in
       (mkR (fst (r_sv r)) (snd (r_sv r)) 0 n cls (r_sv r), errs ++ e1 ++ e2)
   | SFresh n => (mkR [] [] 0 n false ([], []), errs)
